@@ -31,8 +31,8 @@ from ..engine.report import AnalysisError, Run
 from ..engine.resolver import ClassInfo, FuncInfo, Program, body_walk
 from ..engine.normalize import positional
 from ..engine.util import canon, method_call, u
-from ._c06_util import (Flow, HelperCalls, cmp_eval, indent_of, lifted, names_eq, private_callee, pruned, seg, spliced, src_patch,
-                        stmt_patch, transitive_helpers, truth_atom)
+from ._c06_util import (Flow, HelperCalls, cmp_eval, expr_guards, indent_of, inline_all, lifted, names_eq, private_callee, pruned, seg, spliced, src_patch,
+                        stmt_patch, transitive_helpers, tri, truth_atom)
 from .c13 import _self_fields, step_classes, step_interp
 
 ENGINE = "timeseries.formula_engine._formula_engine"
@@ -521,12 +521,50 @@ def check_tab(run: Run, prog: Program) -> None:
     # tokenizer operators
     tk = prog.func(f"{TOK}:Tokenizer.__next__")
     run.analysed(tk.qual)
-    ops: set[str] = set()
+    # which characters become an OPER token: decided per character on the paths of __next__ (its private helpers
+    # read in), whatever the spelling of the classification (in / not in / ==, literal tuples or module constants)
     tk_scope = [tk.node] + [h.node for h in transitive_helpers(Flow(prog, tk))]
-    for n in (x for nd in tk_scope for x in ast.walk(nd)):
-        if isinstance(n, ast.If) and isinstance(n.test, ast.Compare) and isinstance(n.test.ops[0], ast.In) \
-                and any(isinstance(r, ast.Return) and "TokenType.OPER" in u(r) for r in n.body):
-            ops |= {e.value for e in n.test.comparators[0].elts if isinstance(e, ast.Constant)}  # type: ignore[attr-defined]
+    tfl = Flow(prog, inline_all(prog, tk))
+    tmod = tk.module
+
+    def const_set(e: ast.AST) -> set[Any] | None:
+        if isinstance(e, ast.Name) and e.id in tmod.assigns:
+            e = tmod.assigns[e.id]
+        if isinstance(e, ast.Constant):
+            return set(e.value) if isinstance(e.value, str) and len(e.value) != 1 else {e.value}
+        if isinstance(e, (ast.Tuple, ast.List, ast.Set)) and all(isinstance(x, ast.Constant) for x in e.elts):
+            return {x.value for x in e.elts}  # type: ignore[attr-defined]
+        if isinstance(e, ast.Call) and u(e.func) in ("frozenset", "set", "tuple", "list") and len(e.args) == 1:
+            return const_set(e.args[0])
+        return None
+
+    oper_sites: list[tuple[int, list[Any]]] = []
+    for nid, c in tfl.calls(lambda c: u(c.func) == "Token"):
+        a = positional(c, ["type", "value"])
+        if u(a.get("type")) == "TokenType.OPER" and "value" in a:
+            oper_sites.append((nid, tfl.origin(a["value"], nid)))
+    cands = {x.value for nd in tk_scope + list(tmod.assigns.values()) for x in ast.walk(nd)
+             if isinstance(x, ast.Constant) and isinstance(x.value, str) and len(x.value) == 1} | {k for k in table if len(k) == 1}
+    ops: set[str] = set()
+    for ch in sorted(cands):
+        for site, vo in oper_sites:
+            def atom(e: ast.AST, nid: int, ch: str = ch, vo: list[Any] = vo) -> bool | None:
+                if not (isinstance(e, ast.Compare) and len(e.ops) == 1):
+                    return None
+                for x, y in ((e.left, e.comparators[0]), (e.comparators[0], e.left)):
+                    xo = tfl.origin(x, nid)
+                    if xo and all(q.kind == "iter" for q in xo) and names_eq(xo, vo):
+                        cs = const_set(y)
+                        if cs is None:
+                            return None
+                        op = e.ops[0]
+                        if isinstance(op, (ast.Eq, ast.NotEq)) and len(cs) == 1:
+                            return (ch in cs) == isinstance(op, ast.Eq)
+                        if isinstance(op, (ast.In, ast.NotIn)) and x is e.left:
+                            return (ch in cs) == isinstance(op, ast.In)
+                return None
+            if tfl.cfg.path(tfl.cfg.entry, [site], edge_ok=pruned(tfl.cfg, lifted(tfl, atom))) is not None:
+                ops.add(ch)
     run.check(ops == {"+", "-", "*", "/", "(", ")"} and ops <= set(table), "C05.TAB", tk.qual,
               f"tokenizer operators {sorted(ops)}",
               "the tokenizer's operator characters are not exactly + - * / ( ) or lack a precedence",
@@ -574,8 +612,10 @@ def check_tab(run: Run, prog: Program) -> None:
             ma = positional(mc, mparams)
             cid = ma.get(mparams[0]) if mparams else None
             naz = ma.get("nones_are_zeros")
+            co = ffl.origin1(cid, mn) if cid is not None else None
+            cid, cnid = (co.node, co.nid) if co is not None and co.kind == "expr" else (None, mn)
             ok = len(oa) == 1 and tok_value(oa.get(oparams[0]), on) \
-                and isinstance(cid, ast.Call) and u(cid.func) == "int" and len(cid.args) == 1 and tok_value(cid.args[0], mn) \
+                and isinstance(cid, ast.Call) and u(cid.func) == "int" and len(cid.args) == 1 and tok_value(cid.args[0], cnid) \
                 and naz is not None and all(o.kind == "param" and o.name == "nones_are_zeros" for o in ffl.origin(naz, mn))
     run.check(ok, "C05.TAB", fs.qual, "every token pushed in order",
               "tokens are not pushed one by one in input order with their own value", node=fs.node, file=fs.file)
@@ -1280,9 +1320,19 @@ def check_tok(run: Run, prog: Program) -> None:
                             return None
                         return lifted(fl, atom)
 
-                    inside = fl.cfg.path(fl.cfg.entry, [n.id], edge_ok=pruned(fl.cfg, atom_for(4, 5), normal_only=False)) is not None
-                    at_end = fl.cfg.path(fl.cfg.entry, [n.id], edge_ok=pruned(fl.cfg, atom_for(5, 5), normal_only=False)) is None
-                    beyond = fl.cfg.path(fl.cfg.entry, [n.id], edge_ok=pruned(fl.cfg, atom_for(6, 5), normal_only=False)) is None
+                    guards = expr_guards(fl, x)
+
+                    def evaluated(pos: int, lim: int, nid: int = n.id, guards: Any = guards) -> bool:
+                        """Can the read happen with the position at `pos` and the bound at `lim`?  (statement reachable
+                        and not cut off by a conditional expression / short-circuit around the read)"""
+                        at = atom_for(pos, lim)
+                        if fl.cfg.path(fl.cfg.entry, [nid], edge_ok=pruned(fl.cfg, at, normal_only=False)) is None:
+                            return False
+                        return all(tri(t, lambda e: at(e, nid)) in (need, None) for t, need in guards)
+
+                    inside = evaluated(4, 5)
+                    at_end = not evaluated(5, 5)
+                    beyond = not evaluated(6, 5)
                     # every attribute used as the bound holds len(<the string stored in S>)
                     same = True
                     s_vals = stored(s_attr or "")
